@@ -109,6 +109,20 @@ CLAIMED["C08"] = dict(
     design="6/C08",
 )
 
+CLAIMED["C10"] = dict(
+    text="Lean theorems (Props/C10.lean): run directory names parse back to their start time for every valid time of day (24-hour "
+         "format), the sort key is the calendar order, the name handed out by get_run_dir is never one already in use, over any "
+         "history of runs (any groups, instances, clock readings, any number per second) the run directories are pairwise distinct, "
+         ":last/:first pick a run of greatest/least start time. Tie: suite `history` runs all histories to length 2 (quick) / 3 "
+         "(thorough) over 16 run kinds plus random longer ones against the real CsvPaths with an injected clock; after every run "
+         "the whole archive is hashed (earlier runs byte-identical, exactly one new directory under the run's own group), names "
+         "are compared with the model, chronological name order and $group.results.<prefix>:last/:first are checked through the API.",
+    note="The file system is finite (the collision search is bounded by a fuel the theorem quantifies over); archive/manifest.json is the "
+         "archive-level run log, not a file of an earlier run. Ties between `name` and `name.N` (same second) are outside the statement.",
+    technique="Lean 4 proof (digit arithmetic round trip, freshness invariant over run histories) + exhaustive short histories",
+    design="6/C10",
+)
+
 NOT_YET = "check not built yet in this revision (planned: see DESIGN.md section 6); not claimed until its theorem and correspondence suite exist"
 
 
